@@ -12,8 +12,10 @@ type window struct{ enter, exit int64 }
 
 // finalOracle evaluates the clauses that look at the whole run. complete tells whether
 // quiescence was established (every goroutine of the case has finished): only then is a
-// missing effect known to be missing.
-func (g *Rig) finalOracle(complete bool) {
+// missing effect known to be missing. modelSound is false when a wait expired while something
+// was still running: later steps then ran in an order the model does not describe, and only the
+// clauses that compare sequence numbers of real calls remain.
+func (g *Rig) finalOracle(complete, modelSound bool) {
 	m := g.m
 	if complete {
 		g.checkQuiet("at quiescence")
@@ -53,6 +55,9 @@ func (g *Rig) finalOracle(complete bool) {
 					break
 				}
 			}
+		}
+		if !modelSound {
+			continue // only the clauses above are independent of the model
 		}
 		// exact delivery
 		type actItem struct {
@@ -153,6 +158,9 @@ func (g *Rig) finalOracle(complete bool) {
 	}
 	// the fan-out of event A finishes before any write of event B (same trigger, source order)
 	for _, p := range m.Periods {
+		if !modelSound {
+			break
+		}
 		pw := evWin[p.Idx]
 		var maxExit int64
 		var maxEv int
